@@ -155,6 +155,23 @@ def _is_builtin_class(name):
     return isinstance(getattr(builtins, name, None), type)
 
 
+class Raises:
+    """a rule-supplied atom value meaning: evaluating this expression raises the named exception (`pwd.getpwuid` for an
+    unknown uid, ...)"""
+
+    def __init__(self, name):
+        self.name = name
+
+    def __repr__(self):
+        return "Raises(%s)" % self.name
+
+    def __eq__(self, other):
+        return isinstance(other, Raises) and other.name == self.name
+
+    def __hash__(self):
+        return hash(("raises", self.name))
+
+
 class EvalRaise(Exception):
     """evaluating an expression on known values raises a builtin exception (int('x') -> ValueError)"""
 
@@ -278,6 +295,8 @@ class Explorer:
                 return heap_get(env, b, e.attr)
         k = self.key_of(e)
         if k is not None and k in env:
+            if isinstance(env[k], Raises):
+                raise EvalRaise(env[k].name)
             return env[k]
         r = self._ev(e, env, k)
         return r
@@ -910,6 +929,11 @@ class Explorer:
     def _apply(self, node, env):
         st = node.ast
         if node.kind != "stmt":
+            return env
+        if isinstance(st, ast.Return) and st.value is not None:
+            # `return f(x)` whose operand raises for this valuation leaves through the statement's exception edges (an
+            # enclosing try of the same function may catch it), not through the exit
+            self.ev(st.value, env)
             return env
         # an element taken out of a tracked sequence inside a larger expression (`acc.append(lines.pop(0))`): take it
         # out first, then evaluate the statement with the taken value in its place
